@@ -432,11 +432,12 @@ type ccase struct {
 	SetupSeed int64   `json:"setup_seed"`
 	Mask      mt.Mask `json:"read_mask"`
 	Writes    int     `json:"writes,omitempty"`
+	Pending   bool    `json:"first_write_pending,omitempty"` // mode updates: the first write has stored but not published when the streams open
 	Unmasked  string  `json:"unmasked,omitempty"` // what the unmasked read returned (information for the reader of a replay)
 }
 
 func (c ccase) key() string {
-	return fmt.Sprintf("composed %s %s %d %s %d", c.Reader, c.Mode, c.SetupSeed, c.Mask.Enc(), c.Writes)
+	return fmt.Sprintf("composed %s %s %d %s %d %v", c.Reader, c.Mode, c.SetupSeed, c.Mask.Enc(), c.Writes, c.Pending)
 }
 
 type cout struct {
@@ -447,6 +448,7 @@ type cout struct {
 	Mutated  string // a later unmasked read differs / an earlier result changed
 	Stream   string // pull: missing or unexpected events
 	Dropped  int    // updates: changes the masked stream left out because both projections were equal
+	Held     bool   // updates: the pending first write was held between its commit and its publication
 }
 
 func canonAll(ms []proto.Message) string {
@@ -765,6 +767,9 @@ func runComposed(cases []ccase, tie *lib.Tie, mon *lib.Monitor, drv *lib.Driver)
 			if out.Dropped > 0 {
 				tie.Count("updates:dropped-under-mask(equal projections)")
 			}
+			if c.Pending {
+				tie.Count(fmt.Sprintf("updates:first-write-pending held=%v@%s", out.Held, c.Reader))
+			}
 		}
 		nonEmptyRaw := false
 		for _, m := range out.Raw {
@@ -838,7 +843,7 @@ func composedCases(g *mt.Gen, perReader int, pullCases int) []ccase {
 			// ... and its UPDATES: changes of stored items while both an unmasked and a masked stream are open
 			for i, m := range ms {
 				if i < 2 || i%4 == int(g.R.Intn(4)) || len(m.Paths) > 1 {
-					out = append(out, ccase{Reader: r.Name, Mode: "updates", SetupSeed: seed(), Mask: m, Writes: 2 + g.R.Intn(3)})
+					out = append(out, ccase{Reader: r.Name, Mode: "updates", SetupSeed: seed(), Mask: m, Writes: 2 + g.R.Intn(3), Pending: g.R.Intn(2) == 0})
 				}
 			}
 		}
